@@ -157,6 +157,10 @@ def poller_shape():
     tries = [n for n in ast.walk(fns["send_disc_cmd"]) if isinstance(n, ast.Try) and "async_send_cmd" in ast.unparse(n.body)]
     if not tries:
         return "send_disc_cmd: the send is no longer inside a try"
+    # the round walks a SNAPSHOT of the polling table: a reply handled during one of its sends may extend the table (fix 085bef6)
+    fors = [n for n in ast.walk(fns["discover"]) if isinstance(n, ast.For) and "discovery_cmds" in ast.unparse(n.iter)]
+    if not fors or not any(ast.unparse(n.iter).startswith(("list(", "tuple(", "sorted(")) or ".copy()" in ast.unparse(n.iter) for n in fors):
+        return "discover() iterates over the live polling table: a reply that extends it during a send ends the poller (RuntimeError: dictionary changed size during iteration)"
     caught = {ast.unparse(h.type) if h.type is not None else "*" for h in tries[0].handlers}
     reraise = any(isinstance(n, ast.Raise) for h in tries[0].handlers for n in ast.walk(h))
     if not ({"exc.ProtocolError", "TimeoutError"} <= caught or "*" in caught or "Exception" in caught) or reraise:
